@@ -258,10 +258,9 @@ func RunC17(tier string) int {
 	rep.Extra["histories"] = len(hists)
 	rep.Rule = fmt.Sprintf("every ordered list of <=%d versions from {0.9.0,1.0.0,1.1.0-beta,1.1.0,2.0.0-rc1,2.0.0} offered by the registry (each distinct order is a distinct registry answer), optionally one deprecated, × histories of 1-2 Add calls on the same package (registry with 12 allowed sets incl. pessimistic, range, exact, disjoint selection, unsatisfiable; already-versioned final sources; with sub-path); oracle: brute-force maximum over offered∧Has; error and no bundle when empty; recorded source address and deprecation are those of the selected version; one versions request per package. Distinct = (offered list, selected set).", maxOffered)
 	rep.Rule += " Twin part: listings of 2-3 versions from {0.9.0, 1.0.0, 1.0.0+a, 1.0.0+b, 1.1.0} holding at least two of equal precedence (they differ in build metadata only), any one deprecated; requests all / only:1.0.0 / ~> 1.0 / already-versioned @1.0.0, @1.0.0+a, @1.0.0+b (pairs of them in the thorough tier); any of the equal-precedence maxima may be selected, but the source address and the deprecation note recorded for the selected version string must be the ones the registry attached to exactly that string."
-	rep.Assumptions = []string{"among offered versions of equal precedence (build metadata twins) any one may be selected; an already-versioned source may resolve to a twin of the version it names", "Set.Has and Version.LessThan of go-versions are trusted"}
+	rep.Assumptions = []string{"among offered versions of equal precedence (build metadata twins) any one may be selected; an already-versioned source may resolve to a twin of the version it names", "Set.Has (for infinite sets; a finite set contains what it lists) and Version.LessThan of go-versions are trusted"}
 	return rep.Finish()
 }
-
 
 // c17Twins: listings that hold versions of equal precedence (differing in build
 // metadata only). Which twin is selected is left open; what is recorded for the
@@ -400,7 +399,7 @@ func c17Twins(rep *core.Report, thorough bool) int {
 			c := map[string]bool{}
 			for _, o := range w.Regs[0].Versions {
 				ov := versions.MustParseVersion(o.V)
-				if set.Has(ov) && ov.Same(bv) {
+				if RefAllowed(set, ov) && ov.Same(bv) {
 					c[ov.String()] = true
 				}
 			}
